@@ -875,6 +875,29 @@ std::size_t CppCheck::calculateHash(const Preprocessor& preprocessor, const std:
         toolinfo << a.args;
     }
     toolinfo << mSettings.premiumArgs;
+    // options that change the results of the analysis of a file
+    toolinfo << (mSettings.certainty.isEnabled(Certainty::inconclusive) ? 'i' : ' ');
+    toolinfo << (mSettings.checks.isEnabled(Checks::unusedFunction) ? 'u' : ' ');
+    toolinfo << (mSettings.checks.isEnabled(Checks::missingInclude) ? 'm' : ' ');
+    toolinfo << (mSettings.inlineSuppressions ? 'n' : ' ');
+    for (const std::string &u : mSettings.userUndefs)
+        toolinfo << "-U" << u << ';';
+    for (const std::string &l : mSettings.libraries)
+        toolinfo << "--library=" << l << ';';
+    toolinfo << "c" << std::to_string(mSettings.standards.c) << "cpp" << std::to_string(mSettings.standards.cpp);
+    toolinfo << mSettings.platform.toString()
+             << std::to_string(mSettings.platform.char_bit) << mSettings.platform.defaultSign
+             << ';' << mSettings.platform.sizeof_bool
+             << ';' << mSettings.platform.sizeof_short
+             << ';' << mSettings.platform.sizeof_int
+             << ';' << mSettings.platform.sizeof_long
+             << ';' << mSettings.platform.sizeof_long_long
+             << ';' << mSettings.platform.sizeof_float
+             << ';' << mSettings.platform.sizeof_double
+             << ';' << mSettings.platform.sizeof_long_double
+             << ';' << mSettings.platform.sizeof_wchar_t
+             << ';' << mSettings.platform.sizeof_size_t
+             << ';' << mSettings.platform.sizeof_pointer;
     // TODO: do we need to add more options?
     mSuppressions.nomsg.dump(toolinfo, filePath);
     return preprocessor.calculateHash(toolinfo.str());
